@@ -94,6 +94,7 @@ def alphabet(R, level):
         A.append(('db2.add(r1)', [Op(30, 0, R['db2'], R['r1'])]))
     # renames (D6 territory)
     A.append(('tA.name=renamed', [Op(60, R['tA'], 1, vs('renamed'))]))
+    A.append(('tG.name=renamed2', [Op(60, R['tG'], 1, vs('renamed2'))]))      # a table without alias
     if level >= 1:
         A.append(('tA.schema=s2', [Op(60, R['tA'], 2, vs('s2'))]))
         A.append(('tA.alias=None', [Op(60, R['tA'], 3, NONE)]))
